@@ -68,6 +68,7 @@ type CmdSpec struct {
 	YieldDensity int               `json:"yield_density"`
 	Policy       int               `json:"policy"`
 	MaxSteps     int               `json:"max_steps"`
+	TimeoutSec   int               `json:"timeout_sec"` // watchdog of the child (0: 60 s)
 	Sched        simrt.SubTape     `json:"sched"`
 	Env          map[string]string `json:"env"`
 }
@@ -257,9 +258,13 @@ func (rc *RunCtx) RunCmd(spec CmdSpec) *CmdOutcome {
 	}
 	done := make(chan error, 1)
 	go func() { done <- cmd.Wait() }()
+	wd := 60 * time.Second
+	if spec.TimeoutSec > 0 {
+		wd = time.Duration(spec.TimeoutSec) * time.Second
+	}
 	select {
 	case <-done:
-	case <-time.After(60 * time.Second):
+	case <-time.After(wd):
 		syscall.Kill(-cmd.Process.Pid, syscall.SIGKILL)
 		<-done
 		co.TimedOut = true
